@@ -1329,7 +1329,12 @@ class C11B(Suite):
         return q, ordered
 
     def finish(self, case):
-        _, ordered = self.evaluation_order(case)
+        try:
+            _, ordered = self.evaluation_order(case)
+        except Exception:  # noqa: BLE001
+            # the translated algebra cannot be read back (a changed translator): keep the written order; run_impl meets
+            # the same failure and reports it as an error observation, which never equals a model answer
+            return case
         return dict(case, pats=ordered)
 
     def run_impl(self, case):
